@@ -244,12 +244,24 @@ def run_shard(shard_prop, bins, workdir, tier):
     elif kind == 'deep':
         cid = 0
         for chain_kind in 'ao':
-            for depth, expect in ((lim_c - 1, 'p'), (lim_c // 2, 'p'), (lim_c + 2, 'nil'), (2 * lim_c, 'nil')):
-                ops = ['deepchain 1 %s %d' % (chain_kind, depth), 'chk 1', 'stackop dup 2 1', 'chk 1', 'chk 2', 'stackop del 2', 'stackop del 1']
-                cases.append((cid, 'custom' if cid % 2 else 'default', ops))
-                extra[cid] = ('chain', chain_kind, depth, expect)
-                cid += 1
+            for elder in (0, 1):
+                for depth, expect in ((lim_c - 1, 'p'), (lim_c // 2, 'p'), (lim_c + 2, 'nil'), (2 * lim_c, 'nil')):
+                    ops = ['deepchain 1 %s %d %d' % (chain_kind, depth, elder), 'chk 1', 'stackop dup 2 1', 'chk 1', 'chk 2', 'stackop del 2', 'stackop del 1']
+                    cases.append((cid, 'custom' if cid % 2 else 'default', ops))
+                    extra[cid] = ('chain', chain_kind + ('+elder-siblings' if elder else ''), depth, expect)
+                    cid += 1
         # child cycles of 1, 2 and 3 nodes, cut again before deletion
+        # cycles that run through a second element (the refused branch has an elder sibling)
+        for ncyc in (2, 3):
+            ops = ['carr 1', 'carr 2', 'carr 3', 'cnum 4 3ff0000000000000', 'adda 1 4', 'adda 1 2']
+            if ncyc == 2:
+                ops += ['cnum 5 4000000000000000', 'adda 2 5', 'carr 6', 'adda 2 6', 'setchild 6 1', 'stackop dup 9 1', 'setchild 6 ~', 'clr 2', 'clr 4', 'clr 5', 'clr 6']
+            else:
+                ops += ['cstr 5 =78', 'adda 2 5', 'adda 2 3', 'ctrue 6', 'adda 3 6', 'carr 7', 'adda 3 7', 'setchild 7 1', 'stackop dup 9 1', 'setchild 7 ~', 'clr 2', 'clr 3', 'clr 4', 'clr 5', 'clr 6', 'clr 7']
+            ops += ['chk 1', 'del 9', 'del 1', 'del 2', 'del 3']
+            cases.append((cid, 'default', ops))
+            extra[cid] = ('cycle', 10 + ncyc)
+            cid += 1
         for ncyc in (1, 2, 3):
             ops = ['carr 1', 'cobj 2', 'carr 3']
             if ncyc == 1:
